@@ -405,7 +405,7 @@ def run_evaluate(case, tmp, res, queue):
             for j, (pos, tg) in enumerate(expected):
                 match = [g for g, p in preds.items() if p.tobytes() == np.ascontiguousarray(P[:, j]).astype(np.float32).tobytes()]
                 cols.append("%d:%s" % (cids[j], "/".join(str(m) for m in match) if len(match) == 1 else "?%d" % len(match)))
-                if cids[j] != pos or match != [tg]:
+                if cids[j] != pos or preds[tg].tobytes() != np.ascontiguousarray(P[:, j]).astype(np.float32).tobytes():
                     ok = False
         if not ok:
             res.fail("evaluate_model: chain id of a prediction column is not the index of the file its sample came from "
